@@ -391,6 +391,60 @@ def acquisition_loop(rep, rule, f, table_suffix, refresh_suffix):
             rep.holds(rule, f, 'insert#%d' % k, 'every iteration inserts (or refreshes) the entry')
 
 
+def expiry_janitor(rep, rule, cr, f, table_field, index_field):
+    """shared with C12: a cleanup_expired* function removes exactly the entries that are expired themselves"""
+    import lockgraph as LG
+    defs = A.Defs(f)
+    gl = {g.local for g in A.guards(f, defs) if (LG.lock_id(g) or '').endswith(table_field)}
+    rem = []
+    for c in A.calls_to(f, ('re', r'HashMap::<K, V, S(, A)?>::remove$')):
+        a = c.arg_local(0)
+        if a is None:
+            continue
+        _, root = A.origin_fields(f, a, defs, stop_at=gl)
+        if root in gl:
+            rem.append(c)
+    if not rep.floor(rule, 'removals from %s in %s' % (table_field, lib.short(f.name)), len(rem), 1):
+        return
+    rep.analysed(f)
+    for k, c in enumerate(rem):
+        if len(c.args) < 2 or c.args[1][0] == 'k':
+            continue
+        sl = A.backward_slice(f, [c.args[1]], defs)
+        flds = set(sl.fields)
+        calls = set(sl.calls)
+        for cn in sl.closures:
+            h = cr.fns.get(cn[8:] if cn.startswith('closure:') else cn)
+            if h is not None:
+                flds |= set(A.field_reads(h))
+                calls |= {x.resolved for x in A.calls(h)}
+                # what the closure captures
+        expired = any(re.search(r'::is_expired$', x) for x in calls)
+        via_index = any(x.endswith(index_field) for x in flds)
+        if not expired:
+            # the test may sit on the path instead of in the selection
+            atoms = lib.must_pass_atoms(cr.fns, f, defs, c.bb)
+            expired = any(a_.kind != 'cmp' and a_.pol and a_.call is not None and a_.call.resolved.endswith('::is_expired') for a_ in atoms)
+        if expired and not via_index:
+            rep.holds(rule, f, 'remove#%d' % k, 'the removed key is selected from the lock table by is_expired() on its own entry')
+        else:
+            rep.violation(rule, f, 'janitor-removes-unexpired', f.loc(c.line),
+                          'the expiry clean-up removes a key that was %s: a lock that has not expired is released while its transaction is '
+                          'still open, and another writer gets the row' %
+                          ('taken from the per-transaction key list (%s), not selected by the expiry of its own entry' % index_field.split('.')[-1]
+                           if via_index else 'not selected by is_expired() on its own entry'))
+
+
+def r09j(ctx, rep, cr):
+    rep.rule('R09j', 'the janitor releases only what has expired: in RowLockManager::cleanup_expired every key removed from '
+                     'RowLockManager.locks is selected from that table by is_expired() on the entry itself (a filter over the table, or a '
+                     'must-pass test), and does not come out of the per-transaction key list tx_locks. Releasing "everything the '
+                     'transaction holds because its oldest lock timed out" frees rows the open transaction changed a moment ago')
+    f = rep.require_fn('R09j', cr, TM + 'RowLockManager::cleanup_expired')
+    if f is not None:
+        expiry_janitor(rep, 'R09j', cr, f, 'RowLockManager.locks', 'RowLockManager.tx_locks')
+
+
 def run(ctx, rep):
     cr = ctx.crate('relational_engine')
     r09a(ctx, rep, cr)
@@ -402,3 +456,4 @@ def run(ctx, rep):
     r09g(ctx, rep, cr)
     r09h(ctx, rep, cr)
     r09i(ctx, rep, cr)
+    r09j(ctx, rep, cr)
